@@ -52,10 +52,10 @@ func ecValInt(s string) int {
 	return n
 }
 func ecDur(d int) time.Duration {
-	if d < 0 {
+	if d == -1 {
 		return cache.NoExpiration
 	}
-	return time.Duration(d) * ecUnit
+	return time.Duration(d) * ecUnit // other negative durations are negative durations: no expiry either
 }
 
 var ecJanitorSlow = false
@@ -139,6 +139,9 @@ func (s *ecSys) Proj() any {
 
 var ecConfigs = [][2]int{{-1, 0}, {0, 0}, {4, 0}, {-1, 6}, {0, 6}, {4, 6}}
 
+// configurations used by the seeded runs only: a negative default other than NoExpiration
+var ecLinConfigs = [][2]int{{-1, 0}, {0, 0}, {4, 0}, {-1, 6}, {0, 6}, {4, 6}, {-5, 6}, {-5, 0}}
+
 func ecOps(step int, full bool) []tt.Op {
 	v := step
 	var r []tt.Op
@@ -189,7 +192,7 @@ func ecLinear(cfg Config, file string, runs, steps int) (int, error) {
 	}
 	rng := rand.New(rand.NewSource(cfg.Seed*7919 + int64(cfg.Shard+1)))
 	for r := 0; r < runs; r++ {
-		c := ecConfigs[(r*3+int(cfg.Seed)+cfg.Shard)%len(ecConfigs)]
+		c := ecLinConfigs[(r*3+int(cfg.Seed)+cfg.Shard)%len(ecLinConfigs)]
 		s := &ecSys{nk: nk}
 		ls.Run(s, func(st int) (tt.Op, bool) {
 			if st == 0 {
@@ -199,7 +202,7 @@ func ecLinear(cfg Config, file string, runs, steps int) (int, error) {
 				return tt.Op{}, false
 			}
 			k := rng.Intn(nk)
-			d := []int{0, 0, -1, 1, 2, 3, 7, 12, 20}[rng.Intn(9)]
+			d := []int{0, 0, -1, 1, 2, 3, 7, 12, 20, -3}[rng.Intn(10)]
 			switch x := rng.Intn(100); {
 			case x < 30:
 				return op("set", k, st, d), true
@@ -218,6 +221,37 @@ func ecLinear(cfg Config, file string, runs, steps int) (int, error) {
 			default:
 				return op("tick", 1+rng.Intn(9)), true
 			}
+		})
+	}
+	// bulk: many entries expiring at the same moment, purged by one DeleteExpired / one cleanup pass
+	if cfg.Shard < 2 {
+		nb := 40
+		s := &ecSys{nk: nb}
+		intv := []int{0, 6}[cfg.Shard]
+		ls.Run(s, func(st int) (tt.Op, bool) {
+			switch {
+			case st == 0:
+				return op("new", 4, intv), true
+			case st <= nb:
+				d := 2
+				if st%8 == 0 {
+					d = -1
+				} else if st%8 == 1 {
+					d = 30
+				}
+				return op("set", st-1, st, d), true
+			case st == nb+1:
+				return op("tick", 3), true
+			case st == nb+2:
+				return op("delexp"), true
+			case st == nb+3:
+				return op("tick", 9), true
+			case st == nb+4:
+				return op("m2c", 2, 0, 1, 2, 1, 3, 1, 4, 1, 5, 1, 6, 1, 8, 1), true
+			case st == nb+5:
+				return op("tick", 20), true
+			}
+			return tt.Op{}, false
 		})
 	}
 	return ls.Close()
@@ -255,6 +289,9 @@ func init() {
 			nk := 3
 			if variant == "lin" {
 				nk = 8
+			}
+			if variant == "bulk" {
+				nk = 40
 			}
 			return func() tt.Sys { return &ecSys{nk: nk} }, ecZero(nk)
 		},
